@@ -173,6 +173,9 @@ def operand_values(draw, ins, line_kinds):
             vals[o] = draw(st.one_of(st.sampled_from([0.0, 0.01, 100.0, 1234.56, 99999.99]),
                                      st.integers(0, 50000000).map(lambda c: c / 100.0)))
     e = ins.expr
+    if e[0] == 'divstatus':
+        vals['__status__'] = draw(st.sampled_from(['Single', 'MarriedFilingJointly', 'MarriedFilingSeparately', 'HeadOfHousehold', 'QSS']))
+        return vals
     if e[0] == 'roundup':
         inner = e[1]
         a, b = inner[1], inner[2]
@@ -208,21 +211,46 @@ def operand_values(draw, ins, line_kinds):
     return vals
 
 
+class StatusInputs(Mapping):
+    """an input store that knows the filing status and nothing else"""
+    def __init__(self, member):
+        self.member = member
+
+    def __getitem__(self, key):
+        if key == '1040.filing_status':
+            return self.member
+        raise NotClosed('input ' + key)
+
+    def __iter__(self):
+        return iter(())
+
+    def __len__(self):
+        return 0
+
+
 def check_isolated(ctx, year, fname, ln, line, ins, src, vals):
+    status = vals.get('__status__')
+    vals = {k_: v_ for k_, v_ in vals.items() if k_ != '__status__'}
     store = OperandStore(vals, fname)
     form = line.form()
+    istore = NoInputs()
+    if status is not None:
+        spec = catalog.get(year).inputs.get('1040.filing_status')
+        istore = StatusInputs(spec.enum[scenario.status_name(year, status)])
     try:
-        got = line.value(hform.FormAccessor(NoInputs(), form), hform.FormAccessor(store, form))
+        got = line.value(hform.FormAccessor(istore, form), hform.FormAccessor(store, form))
     except NotClosed:
         return 'not_closed'
     except hf.FieldNotImplemented:
         return 'not_implemented'
     except (ZeroDivisionError, TypeError, ValueError, OverflowError):
         return 'data_error'
-    want = instr.evaluate(ins.expr, lambda l: float(vals[l]))
+    want = instr.evaluate(ins.expr, lambda l: float(vals[l]), status=status)
     if want is None:
         return 'na'
     ctx.case()
+    if status is not None:
+        vals = dict(vals, __status__=status)
     alt = None
     if ins.expr[0] == 'roundup':
         # binary floating point: 4234.56 - 1234.56 is 3000.0000000000005; a definition working in floats may
@@ -379,6 +407,14 @@ def statement_sum(r, groups):
     return total, nbox
 
 
+def status_of(r):
+    try:
+        t = r.store.config.get('1040', 'filing_status').strip()
+    except Exception:
+        return None
+    return 'QSS' if t.startswith('Qualifying') else t
+
+
 def tax_fn(year, r):
     """the year's income tax for this return's filing status, from the harness' own rate-schedule reference"""
     from hx import taxref
@@ -447,7 +483,7 @@ def check_solution(ctx, year, r, case):
                     if e[0] == 'sub' and e[3] is None and get(e[2]) < get(e[1]):
                         skip = True
                         ctx.count('e2e:plain_subtraction_negative_skipped')
-                    want = None if skip else instr.evaluate(e, get, tax=tax_fn(year, r))
+                    want = None if skip else instr.evaluate(e, get, tax=tax_fn(year, r), status=status_of(r))
                 if not skip and want is not None:
                     ctx.case()
                     got = float(vals[name]) if vals[name] is not None else 0.0
